@@ -617,13 +617,21 @@ func runNative(bin, dir, harness string, model map[string]uint64, params map[str
 	mb, _ := json.Marshal(map[string]interface{}{"model": model, "params": params})
 	os.WriteFile(mf, mb, 0o644)
 	defer os.Remove(mf)
-	cmd := exec.Command(bin, "-test.run", "^TestVerifReplay$", "-test.count=1", "-test.timeout=30s")
-	cmd.Dir = dir
-	cmd.Env = append(os.Environ(), "VERIF_MODEL="+mf, "VERIF_HARNESS="+harness)
 	var buf bytes.Buffer
-	cmd.Stdout = &buf
-	cmd.Stderr = &buf
-	cmd.Run()
+	// a native run takes milliseconds; on a loaded machine a run that hits the 30 s deadline is repeated once
+	// with a longer one before it is believed
+	for _, to := range []string{"30s", "180s"} {
+		buf.Reset()
+		cmd := exec.Command(bin, "-test.run", "^TestVerifReplay$", "-test.count=1", "-test.timeout="+to)
+		cmd.Dir = dir
+		cmd.Env = append(os.Environ(), "VERIF_MODEL="+mf, "VERIF_HARNESS="+harness)
+		cmd.Stdout = &buf
+		cmd.Stderr = &buf
+		cmd.Run()
+		if !strings.Contains(buf.String(), "test timed out") {
+			break
+		}
+	}
 	res := nativeResult{raw: buf.String()}
 	if m := resultRe.FindStringSubmatch(res.raw); m != nil {
 		for _, f := range regexp.MustCompile(`"([^"]*)"`).FindAllStringSubmatch(m[1], -1) {
